@@ -149,7 +149,13 @@ func (w *Walker) Walk(
 
 	select {
 	case <-done:
-		completions, _ := w.completionsSnapshot()
+		completions, failFastTriggered := w.completionsSnapshot()
+		if err := ctx.Err(); err != nil && !failFastTriggered {
+			// Cancelled from outside: routines whose callback reported the cancellation
+			// returned without a completion, so "all routines are done" does not mean
+			// that everything was built (both cases of this select can be ready)
+			return completions, err
+		}
 		return completions, nil
 	case <-ctx.Done():
 		logger.Debugf(
